@@ -212,6 +212,59 @@ func (m *multi) DeserializeCellBlocks(msg proto.Message, b []byte) (uint32, erro
 	return nread, nil
 }
 
+// validateResponse checks that a MultiResponse is consistent with the request
+// before its results are dispatched. returnResults assumes a well-formed
+// response: a malformed one would otherwise panic the reader goroutine, send a
+// second result to a call (blocking the reader forever) or leave a call
+// without any result.
+func (m *multi) validateResponse(msg proto.Message) error {
+	mr, ok := msg.(*pb.MultiResponse)
+	if !ok {
+		return fmt.Errorf("unexpected response type for Multi: %T", msg)
+	}
+	if l := len(mr.GetRegionActionResult()); l > len(m.regions) {
+		return fmt.Errorf("got %d region action results for %d region actions",
+			l, len(m.regions))
+	}
+	answered := make([]bool, len(m.calls))
+	for i, rar := range mr.GetRegionActionResult() {
+		if e := rar.GetException(); e != nil {
+			if e.Name == nil {
+				return errors.New("region exception without a name in multi response")
+			}
+			for j, c := range m.calls {
+				if c == nil || c.Region() != m.regions[i] {
+					continue
+				}
+				if answered[j] {
+					return fmt.Errorf("more than one result for action %d in multi response", j+1)
+				}
+				answered[j] = true
+			}
+			continue
+		}
+		for _, roe := range rar.GetResultOrException() {
+			i := roe.GetIndex()
+			if i == 0 || uint64(i) > uint64(len(m.calls)) || m.calls[i-1] == nil {
+				return fmt.Errorf("unexpected action index %d in multi response", i)
+			}
+			if answered[i-1] {
+				return fmt.Errorf("more than one result for action %d in multi response", i)
+			}
+			answered[i-1] = true
+			if e := roe.GetException(); e != nil && e.Name == nil {
+				return errors.New("action exception without a name in multi response")
+			}
+		}
+	}
+	for j, c := range m.calls {
+		if c != nil && !answered[j] {
+			return fmt.Errorf("no result for action %d in multi response", j+1)
+		}
+	}
+	return nil
+}
+
 func (m *multi) returnResults(msg proto.Message, err error) {
 	defer freeMulti(m)
 
